@@ -17,6 +17,8 @@ def run(ctx):
                       "(identity, not class membership) and (ii) unregistering a watcher compares by value (list.remove), never by identity", floor=2)
     ctx.rule("R17.f", "a copy starts outside any batch/trigger scope of the original: the transient dispatcher state (parameters_state) is reset after the saved attributes "
                       "were restored, or is excluded from the saved state", floor=1)
+    ctx.rule("R17.g", "get_all_slots (used by Parameterized.__getstate__ for slot-held attributes) returns the slots of the class itself and of every base, "
+                      "decided by abstract interpretation on a three-class chain", floor=1)
     ctx.rule("R17.b", "no nested function / lambda reaches a watcher that param itself installs (closures cannot be pickled and are shared, not copied, by deepcopy)", floor=3)
     ctx.rule("R17.c", "state tables agree: every slot of _InstancePrivate/_ClassPrivate is assigned on every path of __init__ (getstate reads each), "
                       "their getstate/setstate iterate __slots__, Parameter.__getstate__ iterates _all_slots_", floor=5)
@@ -135,7 +137,19 @@ def run(ctx):
     pg = ctx.repo.method(P + "Parameter", "__getstate__")
     ok = any(isinstance(comp, (ast.DictComp, ast.For)) and "_all_slots_" in norm(comp.generators[0].iter if isinstance(comp, ast.DictComp) else comp.iter)
              for comp in ast.walk(pg.node)) and any(isinstance(c, ast.Call) and norm(c.func) == "getattr" for c in ast.walk(pg.node))
-    (ctx.ok if ok else ctx.fail)("R17.c", pg, pg.node, "Parameter.__getstate__ covers _all_slots_" if ok else "Parameter.__getstate__ no longer iterates _all_slots_ (slots of subclasses are lost in copies)")
+    tampered = [st for st in ast.walk(pg.node) if isinstance(st, (ast.Assign, ast.Delete, ast.AugAssign)) and any(
+        isinstance(t, ast.Subscript) for t in (st.targets if not isinstance(st, ast.AugAssign) else [st.target]))] + \
+        [c for c in ast.walk(pg.node) if isinstance(c, ast.Call) and isinstance(c.func, ast.Attribute) and c.func.attr in ("pop", "update", "clear", "setdefault")]
+    if tampered:
+        ok = False
+    if ok:
+        ctx.ok("R17.c", pg, pg.node, "Parameter.__getstate__ returns every slot of _all_slots_, unmodified")
+    elif tampered:
+        ctx.fail("R17.c", pg, tampered[0], "Parameter.__getstate__ rewrites part of the saved state (`%s`): the copy of a Parameter (deepcopy/pickle of its owner) loses that slot, "
+                                           "e.g. the watchers of attribute-level dependencies" % norm(tampered[0])[:60], key=pg.qualname + "::state-tampered",
+                 input="@depends('x:bounds', watch=True); c = deepcopy(obj); c.param.x.bounds = (0, 5) no longer runs c's method")
+    else:
+        ctx.fail("R17.c", pg, pg.node, "Parameter.__getstate__ no longer iterates _all_slots_ (slots of subclasses are lost in copies)")
 
     # ---------------------------------------------------------------- R17.d
     ss = ctx.repo.method(P + "Parameterized", "__setstate__")
@@ -199,3 +213,41 @@ def run(ctx):
                                        "a copy taken while a batch is open keeps BATCH_WATCH=True forever and its watchers never fire again",
                  key=ss.qualname + "::transient-state-copied",
                  input="with batch_call_watchers(p): p.a = 1; c = copy.deepcopy(p)   ->   c.a = 7 never runs c's depends(watch=True) method")
+
+    # ---------------------------------------------------------------- R17.g
+    from engine.absint import Interp, Obj, Unsupported
+    from engine.loader import AnalysisError
+    gas = ctx.repo.func(P + "get_all_slots")
+    Base = Obj("Base", __slots__=["b1"], __dict__={"__slots__": ["b1"]})
+    Mid = Obj("Mid", __dict__={})                      # declares no slots itself
+    Leaf = Obj("Leaf", __slots__=["l1", "l2"], __dict__={"__slots__": ["l1", "l2"]})
+    Object = Obj("object", __dict__={})
+    mro = [Leaf, Mid, Base, Object]
+
+    def hook(fn, args, kwargs):
+        if fn == "classlist":
+            return list(reversed(mro))
+        if fn in ("inspect.getmro",):
+            return tuple(mro)
+        if fn.endswith(".mro") or fn.endswith("__mro__"):
+            return list(mro)
+        if fn == "hasattr" and len(args) == 2 and isinstance(args[0], Obj):
+            return args[1] in args[0].attrs
+        if fn == "getattr" and len(args) >= 2 and isinstance(args[0], Obj):
+            return args[0].attrs.get(args[1], args[2] if len(args) > 2 else None)
+        return NotImplemented
+    it = Interp(ctx.hier, call_hook=hook)
+    try:
+        outs = it.run_all(gas, {gas.params[0]: Leaf})
+    except Unsupported as e:
+        raise AnalysisError("absint cannot interpret get_all_slots: %s -- R17.g cannot decide" % e)
+    if any(o.imprecise or o.kind != "return" for o in outs):
+        raise AnalysisError("absint imprecise on get_all_slots: %s" % outs[0].notes[:2])
+    got = list(outs[0].value) if isinstance(outs[0].value, (list, tuple)) else None
+    ctx.abstract_cases += 1
+    if got is not None and sorted(got) == ["b1", "l1", "l2"]:
+        ctx.ok("R17.g", gas, gas.node, "Leaf(Mid(Base)) -> %s" % got)
+    else:
+        ctx.fail("R17.g", gas, gas.node, "get_all_slots of a class Leaf(Mid(Base)) with own slots [l1, l2] and inherited [b1] returns %s: slot-held attributes of %s are not saved by "
+                                         "__getstate__ and are missing from copies" % (got, "the class itself" if got is not None and "l1" not in got else "a base"),
+                 key=gas.qualname + "::incomplete-slots", input="class with its own __slots__; deepcopy/pickle drops the slot-held attribute")
